@@ -8,7 +8,10 @@ P=$1; TIER=${2:-quick}
 DIR="$(cd "$(dirname "$0")/.." && pwd)"
 WT=/tmp/selfcheck_wt_$$
 git -C /repo worktree add -f --detach $WT HEAD >/dev/null 2>&1 || { echo "cannot create worktree"; exit 2; }
-trap 'git -C /repo worktree remove --force $WT >/dev/null 2>&1; rm -f "$DIR"/bin/verifrun-alt*; rm -rf "$DIR"/run/*alt*' EXIT
+# (alternate binaries and run directories are keyed by the worktree path, so several properties can be run side
+# by side: only this run's own artefacts are removed)
+TAG=$(printf %s "$WT" | sha256sum | cut -c1-8)
+trap 'git -C /repo worktree remove --force $WT >/dev/null 2>&1; rm -f "$DIR"/bin/verifrun-alt$TAG*; rm -rf "$DIR"/run/*alt$TAG*' EXIT
 for d in "$DIR"/selfcheck/$P/*.diff; do
   [ -f "$d" ] || continue
   git -C $WT checkout -q -- . 
